@@ -33,7 +33,7 @@ STYLES = {
 
 class ReprNM(nodes.PlainNM):
     def __repr__(self):
-        return self.text
+        return getattr(self, "text", "ReprNM(%s)" % (self.name,))
 
 
 def style_of(spec):
@@ -162,6 +162,15 @@ def check_case(case, acc):
     for i, node in enumerate(tree):
         node.idx = i
     labels = forest.Labels(tree)
+    _rows_once(case, acc, tree, labels, cls)
+    # read - mutate - read again: the drawing follows the current links and names
+    for op in case.get("mutations", []):
+        refs.mutate_tree(tree, op)
+        _rows_once(case, acc, tree, labels, cls)
+        acc.tag("re-rendered_after_mutation")
+
+
+def _rows_once(case, acc, tree, labels, cls):
     start = tree[case["start"]]
     style, glyphs = style_of(case["style"])
     childiter = childiter_of(case["childiter"])
@@ -268,16 +277,27 @@ def check_repr(case, acc):
         if parent is not None:
             node.parent = tree[parent]
         tree.append(node)
+    _repr_once(case, acc, tree, klass, sep)
+    for op in case.get("mutations", []):
+        # reprs show the CURRENT path of names: re-check after moves, detaches and renames of ancestors
+        refs.mutate_tree(tree, op)
+        _repr_once(case, acc, tree, klass, sep)
+        acc.tag("repr_rechecked_after_mutation")
+    acc.nontrivial(len(tree) >= 3 and any(len(a) >= 2 for a in case["attrs"]))
+    acc.tag("repr_cases")
+
+
+def _repr_once(case, acc, tree, klass, sep):
+    index_of = {id(n): i for i, n in enumerate(tree)}
     for i, node in enumerate(tree):
-        attrs = case["attrs"][i]
-        public = sorted((k, v) for k, v in attrs.items() if not k.startswith("_"))
+        public = sorted((k, v) for k, v in vars(node).items() if not k.startswith("_"))
         if case["cls"] == "Node":
             chain = []
             cur = node
             while cur is not None:
                 chain.append(cur)
                 cur = cur.parent
-            path = sep.join([""] + [str(case["names"][labels_i]) for labels_i in reversed([tree.index(c) for c in chain])])
+            path = sep.join([""] + [str(vars(c)["name"]) for c in reversed(chain)])
             args = [repr(path)] + ["%s=%r" % (k, v) for k, v in public if k != "name"]
         else:
             args = ["%s=%r" % (k, v) for k, v in public]
@@ -289,16 +309,17 @@ def check_repr(case, acc):
     if repr(link) != "SymlinkNode(%s)" % repr(tree[-1]):
         raise Violation("repr-SymlinkNode", repr(link))
     # str(RenderTree) prints exactly these reprs
-    rows = ref_rows(tree[0], list, None, ("│   ", "├── ", "└── "))
+    top = tree[0]
+    while top.parent is not None:
+        top = top.parent
+    rows = ref_rows(top, list, None, ("│   ", "├── ", "└── "))
     lines = []
     for pre, fill, node, _, _ in rows:
         tl = repr(node).split("\n")
         lines.append(pre + tl[0])
         lines.extend(fill + t for t in tl[1:])
-    if str(RenderTree(tree[0])) != "\n".join(lines):
+    if str(RenderTree(top)) != "\n".join(lines):
         raise Violation("str-rendertree", "str(RenderTree) differs from the rows' reprs")
-    acc.nontrivial(len(tree) >= 3 and any(len(a) >= 2 for a in case["attrs"]))
-    acc.tag("repr_cases")
 
 
 # ---------------------------------------------------------------------------
@@ -349,7 +370,8 @@ def random_cases(draw):
         sep = draw(st.sampled_from(["/", "|", "::", "\\", " "]))
         names = [draw(st.one_of(st.text(alphabet="abc.* é", min_size=1, max_size=3), st.integers(0, 9))) for _ in range(size)]
         attrs = [draw(st.dictionaries(IDENT, REPR_VALUE, max_size=4)) for _ in range(size)]
-        return {"kind": "repr", "cls": draw(st.sampled_from(["Node", "AnyNode"])), "shape": shape, "sep": sep, "names": names, "attrs": attrs}
+        muts = draw(strategies.tree_mutations(rename_values=st.one_of(st.text(alphabet="xyz é", min_size=1, max_size=3), st.integers(10, 19))))
+        return {"kind": "repr", "cls": draw(st.sampled_from(["Node", "AnyNode"])), "shape": shape, "sep": sep, "names": names, "attrs": attrs, "mutations": muts}
     shape = draw(strategies.tree_shapes(max_nodes=40, min_nodes=3))
     size = shapes.shape_size(forest.to_tuple(shape))
     cls = draw(st.sampled_from(["Node", "AnyNode", "PlainNM", "ReprNM", "ReprNM"]))
@@ -362,6 +384,7 @@ def random_cases(draw):
         "maxlevel": draw(st.one_of(st.none(), st.integers(-1, 7))),
         "cls": cls,
     }
+    case["mutations"] = draw(strategies.tree_mutations(rename_values=st.text(alphabet="xyz", min_size=1, max_size=2)))
     if draw(st.integers(0, 3)):
         if cls == "ReprNM":
             case["values"] = [{"t": "str", "v": draw(multi_line())} for _ in range(size)]
